@@ -313,6 +313,36 @@ def guard_implies(cond, label, pred, want):
     return False
 
 
+def size_table(c, is_container):
+    """truth of the condition c for size() = 0, 1, 2, 3 of the container recognised by is_container(expr);
+    None when c is not a test of that size (empty(), size() compared with a literal, and !, &&, || of those)"""
+    import operator as _o
+    c = strip_casts(c)
+    if c is None:
+        return None
+    if c.get('k') == 'paren':
+        return size_table(c['e'], is_container)
+    if c.get('k') == 'un' and c['op'] == '!':
+        v = size_table(c['e'], is_container)
+        return None if v is None else [not x for x in v]
+    if is_call(c, '::empty') and c.get('obj') is not None and is_container(c['obj']):
+        return [True, False, False, False]
+    if is_call(c, '::size') and c.get('obj') is not None and is_container(c['obj']):
+        return [False, True, True, True]      # used as a truth value
+    if c.get('k') == 'bin' and c['op'] in ('<', '>', '<=', '>=', '==', '!='):
+        l, r = strip_casts(c['l']), strip_casts(c['r'])
+        ops = {'<': _o.lt, '>': _o.gt, '<=': _o.le, '>=': _o.ge, '==': _o.eq, '!=': _o.ne}
+        if is_call(l, '::size') and l.get('obj') is not None and is_container(l['obj']) and r is not None and r.get('k') == 'int':
+            return [ops[c['op']](n, r['v']) for n in range(4)]
+        if is_call(r, '::size') and r.get('obj') is not None and is_container(r['obj']) and l is not None and l.get('k') == 'int':
+            return [ops[c['op']](l['v'], n) for n in range(4)]
+    if c.get('k') == 'bin' and c['op'] in ('&&', '||'):
+        a, b2 = size_table(c['l'], is_container), size_table(c['r'], is_container)
+        if a is not None and b2 is not None:
+            return [(x and y) if c['op'] == '&&' else (x or y) for x, y in zip(a, b2)]
+    return None
+
+
 def guarded(g, ev, pred, want):
     """some dominating branch implies that the atom has value `want` at ev"""
     return any(guard_implies(cond, label, pred, want) for cond, label, cn in g.guards_of(ev))
